@@ -843,9 +843,17 @@ fn format_interpolated_string(
         let mut expression = format_expression(ctx, &segment.expression, shape);
         shape = shape.take_last_line(&expression);
 
-        // If expression is a table constructor, then ensure a space is added beforehand
-        // since `{{` syntax is not permitted
-        if let Expression::TableConstructor { .. } = expression {
+        // If expression starts with a table constructor (`{}`, `{} :: T`, `{ a } == b`), then ensure
+        // a space is added beforehand since `{{` syntax is not permitted
+        let starts_with_brace = expression.tokens().next().is_some_and(|token| {
+            matches!(
+                token.token_type(),
+                TokenType::Symbol {
+                    symbol: Symbol::LeftBrace
+                }
+            )
+        });
+        if starts_with_brace {
             expression =
                 expression.update_leading_trivia(FormatTriviaType::Append(vec![Token::new(
                     TokenType::spaces(1),
